@@ -558,7 +558,7 @@ def _solve_ABE(A: torch.Tensor, B: torch.Tensor, E: torch.Tensor):
     except torch._C._LinAlgError:  # type: ignore
         # add a small value to the diagonal to reduce the condition number slightly
         eps = torch.finfo(A.dtype).eps
-        dAE = 10 * eps * torch.max(AE.reshape(*AE.shape[:-2], -1), dim=-1)[0][..., None, None]
+        dAE = 10 * eps * torch.max(AE.abs().reshape(*AE.shape[:-2], -1), dim=-1)[0][..., None, None]
         AE = AE + torch.eye(na, dtype=A.dtype, device=A.device) * dAE
 
         # try again, if it fails, it fails
